@@ -643,7 +643,7 @@ Proof.
   change (subst_arch a (s ".plzconfig")) with (s ".plzconfig").
   change (subst_arch a (s ".plzconfig.local")) with (s ".plzconfig.local").
   change (subst_arch a (s ".plzconfig_<arch>")) with (s ".plzconfig_" ++ a).
-  cbn [e_home]. rewrite <- !app_assoc. cbn [app]. reflexivity.
+  cbn [e_home]. reflexivity.
 Qed.
 
 (* ---- tie to the source: the defaults of the sampled options ---- *)
@@ -663,7 +663,11 @@ Definition schema_matches_gen (sch : schema) (os : list opt) : bool :=
     && match gen_init (opt_name o) with
        | Some (Some v) => vals_opt_eqb (assoc o (init sch)) (Some v)
        | Some None => true                                   (* non-literal default, e.g. a duration *)
-       | None => vals_opt_eqb (assoc o (init sch)) None
+       | None =>                                             (* not assigned there: the Go zero value *)
+           match o with
+           | Single SBool _ => vals_opt_eqb (assoc o (init sch)) (Some [s "false"])
+           | _ => vals_opt_eqb (assoc o (init sch)) None
+           end
        end) os
   && match derive sch, derived_options with
      | Some (src, dst), [(gs, gd, parts)] =>
